@@ -346,6 +346,11 @@ MUTATIONS += [
     dict(id="C03-repairindex-replace-before-finalize", prop="C03", file=RIXF, old="    indexer.write().unwrap().finalize()?;\n    p.finish();\n\n    // now that all re-read packs are indexed, replace the modified index files\n    for (index_id, new_index) in changed_index_files {\n        if !new_index.packs.is_empty() || !new_index.packs_to_delete.is_empty() {\n            _ = be.save_file(&new_index)?;\n        }\n        be.remove(FileType::Index, &index_id, true)?;\n    }\n", new="    // replace the modified index files\n    for (index_id, new_index) in changed_index_files {\n        if !new_index.packs.is_empty() || !new_index.packs_to_delete.is_empty() {\n            _ = be.save_file(&new_index)?;\n        }\n        be.remove(FileType::Index, &index_id, true)?;\n    }\n    indexer.write().unwrap().finalize()?;\n    p.finish();\n"),
 ]
 
+MUTATIONS += [
+    dict(id="C12-rewrite-memo-ignores-path-on-lookup", prop="C12", file=RWTF, old="        if self.unchanged.contains(&(path.clone(), id)) {", new="        if self.unchanged.contains(&(PathBuf::new(), id)) {"),
+    dict(id="C12-rewrite-memo-recorded-without-path", prop="C12", file=RWTF, old="            _ = self.unchanged.insert((path, id));", new="            _ = self.unchanged.insert((PathBuf::new(), id));"),
+]
+
 HARMLESS = [
     dict(id="H-C05-trees-symlink-continue", prop="C05", file=CK, old="        for node in tree.nodes {\n            match node.node_type {", new="        for node in tree.nodes {\n            if node.node_type == NodeType::Symlink {\n                continue;\n            }\n            match node.node_type {"),
     # independent statements reordered
